@@ -229,8 +229,49 @@ func overlayFor(groups []string) (map[string][]byte, []string, error) {
 			return nil, nil, err
 		}
 	}
+	// a group may declare other groups it imports: "// verif:needs a b"
+	done := map[string]bool{}
+	var addGroup func(g string, asPattern bool) error
+	addGroup = func(g string, asPattern bool) error {
+		if done[g] {
+			return nil
+		}
+		done[g] = true
+		dir := filepath.Join(*flagHarness, g)
+		before := map[string]bool{}
+		for k := range pkgs {
+			before[k] = true
+		}
+		if err := add(dir); err != nil {
+			return err
+		}
+		if !asPattern {
+			for k := range pkgs {
+				if !before[k] {
+					delete(pkgs, k)
+				}
+			}
+		}
+		ents, _ := os.ReadDir(dir)
+		for _, e := range ents {
+			if !strings.HasSuffix(e.Name(), ".go") {
+				continue
+			}
+			b, _ := os.ReadFile(filepath.Join(dir, e.Name()))
+			for _, line := range strings.SplitN(string(b), "\n", 8) {
+				if strings.HasPrefix(line, "// verif:needs ") {
+					for _, dep := range strings.Fields(strings.TrimPrefix(line, "// verif:needs ")) {
+						if err := addGroup(dep, false); err != nil {
+							return err
+						}
+					}
+				}
+			}
+		}
+		return nil
+	}
 	for _, g := range groups {
-		if err := add(filepath.Join(*flagHarness, g)); err != nil {
+		if err := addGroup(g, true); err != nil {
 			return nil, nil, err
 		}
 	}
